@@ -747,10 +747,82 @@ func listBack(e *Engine, st *State, args []Value, depth int, pos string, k func(
 		k(st, VUnknown{nil, "list.Back"})
 		return
 	}
-	// Back() of an empty list is nil
+	// Back() of an empty list is nil; otherwise an element whose Value is the oldest queued event
 	st.addTrace(TraceEv{Kind: "list.back", Pos: pos})
-	ev := App(SFeedEv, "select", l.Seq, IntLit(0))
-	k(st, VAbs{Kind: "listelem", ID: e.nextID(), Data: ev, })
+	ev := Select(l.Seq, IntLit(0), SFeedEv)
+	if !Gt(l.Len, IntLit(0)).IsTrue() {
+		st2 := st.clone()
+		st2.assume(Le(l.Len, IntLit(0)))
+		k(st2, VNil{})
+		st.assume(Gt(l.Len, IntLit(0)))
+	}
+	// the queued value: nil *FeedEvent (dump terminator) or a pointer to an event
+	elemFor := func(st *State, val Value) Value {
+		et := e.listElementType()
+		if et == nil {
+			return VAbs{Kind: "listelem", ID: e.nextID(), Data: ev}
+		}
+		stt := et.Underlying().(*types.Struct)
+		fs := make([]Value, stt.NumFields())
+		for i := range fs {
+			if stt.Field(i).Name() == "Value" {
+				fs[i] = val
+			} else {
+				fs[i] = VNil{}
+			}
+		}
+		return VPtr{Cell: e.newCell(st, VStruct{fs})}
+	}
+	fet := e.feedEventNamed()
+	if fet == nil {
+		k(st, VAbs{Kind: "listelem", ID: e.nextID(), Data: ev})
+		return
+	}
+	isNilEv := Eq(ev, mkT("FE_NIL", SFeedEv))
+	stn := st.clone()
+	stn.assume(isNilEv)
+	k(stn, elemFor(stn, VIface{Typ: types.NewPointer(fet), V: VNil{}}))
+	st.assume(Not(isNilEv))
+	k(st, elemFor(st, VIface{Typ: types.NewPointer(fet), V: e.feedEventValue(st, ev)}))
+}
+
+func (e *Engine) listElementType() types.Type {
+	for _, p := range e.prog.AllPackages() {
+		if p.Pkg.Path() == "container/list" {
+			if tn := p.Pkg.Scope().Lookup("Element"); tn != nil {
+				return tn.Type()
+			}
+		}
+	}
+	return nil
+}
+
+func (e *Engine) feedEventNamed() types.Type {
+	for _, p := range e.prog.AllPackages() {
+		if p.Pkg.Path() == "github.com/couchbase/sg-bucket" {
+			if tn := p.Pkg.Scope().Lookup("FeedEvent"); tn != nil {
+				return tn.Type()
+			}
+		}
+	}
+	return nil
+}
+
+// feedEventValue builds a *sgbucket.FeedEvent whose fields are the components of a FeedEv term.
+func (e *Engine) feedEventValue(st *State, ev Term) Value {
+	stt := e.feedEventType()
+	fs := make([]Value, stt.NumFields())
+	field := map[string]string{"Opcode": "fe.opcode", "Key": "fe.key", "Value": "fe.value", "Cas": "fe.cas", "Expiry": "fe.expiry",
+		"DataType": "fe.datatype", "RevNo": "fe.revno", "CollectionID": "fe.collid"}
+	for i := range fs {
+		f := stt.Field(i)
+		if acc, ok := field[f.Name()]; ok {
+			fs[i] = sym(App(scalarSort(f.Type()), acc, ev))
+		} else {
+			fs[i] = e.havoc(st, f.Type(), "fe."+f.Name())
+		}
+	}
+	return VPtr{Cell: e.newCell(st, VStruct{fs})}
 }
 
 func listRemove(e *Engine, st *State, args []Value, depth int, pos string, k func(*State, Value)) {
@@ -761,9 +833,8 @@ func listRemove(e *Engine, st *State, args []Value, depth int, pos string, k fun
 	}
 	// only removal of the back element is used (queue.pull)
 	shifted := e.fresh(st, "listshift", SEvSeq)
-	i := "i!shift"
-	st.assume(mkT(fmt.Sprintf("(forall ((%s Int)) (! (= (select %s %s) (select %s (+ %s 1))) :pattern ((select %s %s))))",
-		i, shifted.S, i, l.Seq.S, i, shifted.S, i), SBool))
+	// the remaining elements keep their order (A-LIST); their positions shift down by one: not needed by any clause,
+	// so the shifted sequence is left uninterpreted rather than axiomatised with a quantifier
 	st.heap[cell] = &ListObj{Seq: shifted, Len: Sub(l.Len, IntLit(1)), NilT: l.NilT}
 	st.addTrace(TraceEv{Kind: "list.removeback", Pos: pos})
 	k(st, VUnknown{nil, "removed"})
